@@ -140,6 +140,40 @@ def run_case(name, S, kind, seq, out, desig, form='node'):
             break
 
 
+def run_shared(name, S, kind, seq, out):
+    """Two root branches of ONE tableau built from the same node objects (first in the given order, second reversed):
+    whether a node closes a branch depends on that branch, not on where the node object was seen before."""
+    s = KINDS[kind]
+    tab = tabs.new_tableau(name)
+    nodes = [tabs.mk_node(('S', syn.neg(s) if n else s, d, w)) for n, d, w in seq]
+    worlds = sorted({w for _, _, w in seq}, key=lambda w: -1 if w is None else w)
+    expected = any(not satisfiable(S, kind, [(n, d) for n, d, ww in seq if ww == w]) for w in worlds)
+    brs = []
+    for which, order in (('first', nodes), ('second', list(reversed(nodes)))):
+        br = tab.branch()
+        for nd in order:
+            br.append(nd)
+        brs.append((which, br))
+    tab.build()
+    for which, br in brs:
+        out.count('shared_node_branches')
+        out.case((name, kind, tuple(seq), 'shared', which), nontrivial=True)
+        if bool(br.closed) != expected and which == 'second':
+            # the first branch is the ordinary case (already judged by run_case); report the sharing-specific one
+            lits = sorted({(n, d) for n, d, _ in seq})
+            out.violation(
+                'closure-mismatch',
+                dict(logic=name, kind=kind, form='shared-node-objects', seq=[list(q) for q in seq], closed=bool(br.closed),
+                     expected_closed=expected),
+                dict(diag='closed-but-satisfiable' if br.closed else 'open-but-unsatisfiable', family=S.base_name,
+                     classical=S.classical, kind=kind,
+                     literals=[f"{'~' if n else ''}s{ {True: '+', False: '-', None: ''}[d] }" for n, d in lits],
+                     split_worlds=len(worlds) > 1, shared_node_objects=True),
+                f'{name}: the node objects of {seq} appended (reversed) to a second root branch of the same tableau: '
+                f'closed={bool(br.closed)}, satisfiable={not expected}', size=len(seq))
+            return
+
+
 def run_unit(unit, out, tier, seed):
     name = unit['logic']
     if name not in lib.logic_names():
@@ -168,6 +202,8 @@ def run_unit(unit, out, tier, seed):
                         run_case(name, S, kind, seq, out, desig)
                         if tier == 'thorough' or k <= 2 or n_cases % 3 == 0:
                             run_case(name, S, kind, seq, out, desig, form='mapping')
+                        if k >= 2 and (tier == 'thorough' or n_cases % 2 == 0):
+                            run_shared(name, S, kind, seq, out)
                         n_cases += 1
                         if n_cases % 400 == 1:
                             out.sample(dict(logic=name, kind=kind,
@@ -180,5 +216,8 @@ def replay(wit):
     out = Out()
     c = wit['case']
     S = rsem.sem(c['logic'])
-    run_case(c['logic'], S, c['kind'], [tuple(q) for q in c['seq']], out, None, form=c.get('form', 'node'))
+    if c.get('form') == 'shared-node-objects':
+        run_shared(c['logic'], S, c['kind'], [tuple(q) for q in c['seq']], out)
+    else:
+        run_case(c['logic'], S, c['kind'], [tuple(q) for q in c['seq']], out, None, form=c.get('form', 'node'))
     return dict(violates=bool(out.violations), detail=[v['message'] for v in out.violations])
